@@ -122,10 +122,14 @@ def audit(prop: str, thorough: bool = False) -> Audit:
     # are rewritten from the CURRENT source ($VERIF_REPO) before the build, so that a change of a translated
     # function breaks the build of its tie proof (-> `broken` -> failing-input search).  The lock serialises
     # regenerate+build between checks that run at the same time with different $VERIF_REPO.
+    # NrfProps/<Cxx>Source.lean (optional): this property's theorems about the translated source; audited with the others
+    sfile = LEAN / "NrfProps" / f"{prop}Source.lean"
+    pfiles = [pfile] + ([sfile] if sfile.exists() else [])
+    closure = sorted({f for pf in pfiles for f in imports_closure(pf)})
     gen_lock = None
     refused = ""
     if os.environ.get("VERIF_GEN_TIE", "1") != "0" and any(
-            f.parent.name == "NrfGen" for f in imports_closure(pfile)):
+            f.parent.name == "NrfGen" for f in closure):
         import fcntl
         (LEAN / ".lake").mkdir(exist_ok=True)
         gen_lock = open(LEAN / ".lake" / "gen_tie.lock", "w")
@@ -141,7 +145,7 @@ def audit(prop: str, thorough: bool = False) -> Audit:
             # infrastructure trouble): the check goes on to the correspondence and the failing-input search.
             refused = "py2lean refused the current source (tie by translation broken): " + (g.stdout + g.stderr)[-800:]
     try:
-        ok, log = lake_build([f"NrfProps.{prop}", "nrfdrv"])
+        ok, log = lake_build([f"NrfProps.{pf.stem}" for pf in pfiles] + ["nrfdrv"])
     finally:
         if gen_lock is not None:
             gen_lock.close()
@@ -152,23 +156,26 @@ def audit(prop: str, thorough: bool = False) -> Audit:
     if not ok:
         a.build_ok = False
         a.problems.append("lake build failed:\n" + log[-3000:])
-    src = strip_lean_comments(pfile.read_text())
-    a.theorems = re.findall(r"^theorem\s+([A-Za-z0-9_.']+)", src, re.M)
+    full_name = {}
+    for pf in pfiles:
+        src = strip_lean_comments(pf.read_text())
+        ns = re.search(r"^namespace\s+(\S+)", src, re.M)
+        for t in re.findall(r"^theorem\s+([A-Za-z0-9_.']+)", src, re.M):
+            full_name[t] = ((ns.group(1) + ".") if ns else "") + t
+    a.theorems = list(full_name)
     if not a.theorems:
         a.problems.append("no property theorem found")
-    for f in imports_closure(pfile):
+    for f in closure:
         s = strip_lean_comments(f.read_text())
         for m in FORBIDDEN.finditer(s):
             a.problems.append(f"forbidden token {m.group(0).strip()!r} in {f.relative_to(LEAN)}")
     if not a.build_ok:
         return a
-    ns = re.search(r"^namespace\s+(\S+)", src, re.M)
-    prefix = (ns.group(1) + ".") if ns else ""
     adir = LEAN / ".lake" / "audit"
     adir.mkdir(parents=True, exist_ok=True)
     afile = adir / f"{prop}_audit.lean"
     afile.write_text(
-        f"import NrfProps.{prop}\n" + "".join(f"#print axioms {prefix}{t}\n" for t in a.theorems)
+        "".join(f"import NrfProps.{pf.stem}\n" for pf in pfiles) + "".join(f"#print axioms {full_name[t]}\n" for t in a.theorems)
     )
     p = subprocess.run(
         ["lake", "env", "lean", str(afile)], cwd=LEAN, capture_output=True, text=True, timeout=1800
@@ -179,7 +186,7 @@ def audit(prop: str, thorough: bool = False) -> Audit:
         return a
     out1 = re.sub(r"\s+", " ", out)
     for t in a.theorems:
-        full = prefix + t
+        full = full_name[t]
         m = re.search(re.escape(f"'{full}'") + r" depends on axioms: \[([^\]]*)\]", out1)
         if m:
             axs = {x.strip() for x in m.group(1).split(",") if x.strip()}
@@ -196,7 +203,7 @@ def audit(prop: str, thorough: bool = False) -> Audit:
             a.clean.append(t)
     if thorough:
         mods = [
-            str(f.relative_to(LEAN))[:-5].replace("/", ".") for f in imports_closure(pfile)
+            str(f.relative_to(LEAN))[:-5].replace("/", ".") for f in closure
         ]
         # in batches: one process for the whole closure of a node-layer property needs 20 GB; eight modules at a time
         # stay below 6 GB.  A checker process that is killed (memory, time) is infrastructure trouble, not a rejected proof.
